@@ -88,7 +88,7 @@ def Cmd.setHidden (c : Cmd) (h : Bool) : Cmd :=
 
 /-- the unknown-option handler family of the harness -/
 inductive Handler where
-  | none | identity | dropNext | prepend (tok : Bytes) | fail
+  | none | identity | dropNext | prepend (tok : Bytes) | fail | swallow
   deriving Repr, DecidableEq, Inhabited
 
 inductive ErrType where
